@@ -5,6 +5,7 @@ import SlotVerif.Proofs.UfWrite
 import SlotVerif.Proofs.UfTotal
 import SlotVerif.Proofs.EqShrink
 import SlotVerif.Proofs.EqMerge
+import SlotVerif.Proofs.Add
 /-!
 # C13 — Equalities are never lost and old handles stay valid
 
@@ -210,6 +211,26 @@ theorem equalities_of_survivor_survive_merge {s s' : Snap} {ct ct' : SClass} {i 
     (hA : Snap.IsEmb ct.slots A) (hB : Snap.IsEmb ct.slots B) (h : Snap.eq s a b = some true) :
     Snap.eq s' a b = some true :=
   Snap.eq_survives_merge_target hclst hvt hold hlead hne huf hcls' hid hslots hvt' hgens ha hb hA hB h
+
+/-! ### insertions (`EGraph::add` on a miss, `Model/Add.lean`; tied to the code by the `addnew` query of the `snap` suite) -/
+
+/-- an insertion that creates a class leaves every old handle resolvable, to the same invocation -/
+theorem handle_survives_insertion {s s' : Snap} {n syn : Node} {f2o : SlotMap} {data : String} {a b r : AppId}
+    (h : Snap.addNew s n f2o syn data = some (s', a)) (hf : Snap.find s b = some r) : Snap.find s' b = some r :=
+  Snap.find_survives_add h hf
+
+/-- an insertion neither loses nor adds an equality between old handles: `eq` answers as before -/
+theorem equalities_survive_insertion {s s' : Snap} {n syn : Node} {f2o : SlotMap} {data : String} {a b c : AppId} {r : Bool}
+    (hok : Snap.ufOK s = true) (h : Snap.addNew s n f2o syn data = some (s', a)) (he : Snap.eq s b c = some r) :
+    Snap.eq s' b c = some r :=
+  Snap.eq_survives_add (Snap.ufOK_sound hok).1 h he
+
+/-- the class an insertion creates is new (its id was not alive before) and alive afterwards -/
+theorem inserted_class_is_new {s s' : Snap} {n syn : Node} {f2o : SlotMap} {data : String} {a : AppId}
+    (h : Snap.addNew s n f2o syn data = some (s', a)) :
+    a.id = s.uf.length ∧ Snap.isAlive s' a.id = true ∧ Snap.isAlive s a.id = false :=
+  Snap.add_new_alive h
+
 
 /-- non-vacuity: two classes are allocated, class 1 (slots 0, 4) is merged into class 0 (slots 8, 12) with the arguments
 exchanged, then class 0 loses slot 12; all four writes pass the guards -/
